@@ -34,7 +34,7 @@ Proof. unfold in64b. intro H. apply andb_true_iff in H as [A B]. apply Z.leb_le 
 Fixpoint lits_okb (e : expr) : bool :=
   match e with
   | EInt z => in64b z
-  | EGroup x | EUnary x | EItoa x => lits_okb x
+  | EGroup x | EUnary x | EItoa x | ELen x => lits_okb x
   | EBinary l _ r | ECompare l _ r | ELogical l _ r => lits_okb l && lits_okb r
   | _ => true
   end.
@@ -46,6 +46,7 @@ Proof.
   - apply andb_true_iff in H as [A B]. split; apply IH; assumption.
   - apply andb_true_iff in H as [A B]. split; apply IH; assumption.
   - apply andb_true_iff in H as [A B]. split; apply IH; assumption.
+  - apply IH. exact H.
   - apply IH. exact H.
   - apply IH. exact H.
 Qed.
